@@ -1367,6 +1367,8 @@ func main() {
 			oc = append(oc, fmt.Sprintf("  (%s,\n   %s)", q(n), optionClosure(ctorFile[n], n)))
 		}
 		fmt.Fprintf(&sw, "(* driver/options/*.go (C19): the closures *)\nDefinition option_code : list (string * list dstmt) := [\n%s].\n", strings.Join(oc, ";\n"))
+		fmt.Fprintf(&sw, "(* driver/network/acquirepriv.go Driver.determineCurrentPriv *)\nDefinition determine_current_priv_code : list dstmt :=\n  %s.\n",
+			decisionFunc("driver/network/acquirepriv.go", "Driver.determineCurrentPriv"))
 		// the loops that apply an option list to an object (C19)
 		var ol []string
 		for _, lf := range [][2]string{{"driver/generic/driver.go", "NewDriver"}, {"driver/network/driver.go", "NewDriver"}, {"driver/netconf/driver.go", "NewDriver"},
